@@ -339,6 +339,7 @@ def forms():
     add('base.tr2delta', 'T0,T1 (any 3x4 blocks)', [('X', M44, 'hom'), ('Y', M44, 'hom')], base.tr2delta)
     add('base.tr2jac', 'T,samebody=True (any 3x4 block)', [('X', M44, 'hom')], lambda X: base.tr2jac(X, samebody=True))
     add('SE3.inv', 'inv (any 3x4 block)', [('X', M44, 'hom')], lambda X: SE3(X, check=False).inv())
+    add('SE3.jacob', 'jacob (any 3x4 block)', [('X', M44, 'hom')], lambda X: SE3(X, check=False).jacob())
     add('SE3.Ad', 'Ad (any 3x4 block)', [('X', M44, 'hom')], lambda X: SE3(X, check=False).Ad())
     add('op.SE3*SE3', 'X*Y (any 3x4 blocks)', [('X', M44, 'hom'), ('Y', M44, 'hom')], lambda X, Y: SE3(X, check=False) * SE3(Y, check=False))
     add('op.SE3/SE3', 'X/Y (any 3x4 blocks)', [('X', M44, 'hom'), ('Y', M44, 'hom')], lambda X, Y: SE3(X, check=False) / SE3(Y, check=False))
